@@ -3,8 +3,10 @@ package kernel
 import (
 	"fmt"
 	"hash/fnv"
+	"maps"
 	"net"
 	"runtime"
+	"slices"
 	"sort"
 	"strconv"
 	"sync"
@@ -97,6 +99,10 @@ type Sim struct {
 	trace    []string
 	traceSig uint64
 	fail     *Violation
+
+	// Known is the set of "class|witness" keys of listed known findings.
+	Known     map[string]bool
+	knownHits map[string]*Violation
 	faults   map[string]int
 	probes   map[string]int
 	nontriv  bool
@@ -156,7 +162,10 @@ func (s *Sim) Logf(format string, args ...any) {
 
 	s.mu.Lock()
 	defer s.mu.Unlock()
+	s.logLocked(line)
+}
 
+func (s *Sim) logLocked(line string) {
 	h := fnv.New64a()
 	_, _ = h.Write([]byte(line))
 	s.traceSig = (s.traceSig ^ h.Sum64()) * 1099511628211
@@ -200,6 +209,10 @@ func (s *Sim) MarkNontrivial() {
 func (s *Sim) Failf(class, witness, format string, args ...any) {
 	msg := fmt.Sprintf(format, args...)
 
+	if s.NoteKnown(class, witness, msg) {
+		return
+	}
+
 	s.mu.Lock()
 	if s.fail == nil {
 		s.fail = &Violation{Class: class, Witness: witness, Msg: msg}
@@ -207,6 +220,38 @@ func (s *Sim) Failf(class, witness, format string, args ...any) {
 	s.mu.Unlock()
 
 	s.Logf("VIOLATION %s [%s]: %s", class, witness, msg)
+}
+
+// NoteKnown reports whether class|witness is a listed known finding; if so,
+// the occurrence is recorded (first of each per run) and the run is not
+// failed, so that the rest of the run is still judged.
+func (s *Sim) NoteKnown(class, witness, msg string) (known bool) {
+	key := class + "|" + witness
+	s.mu.Lock()
+	defer s.mu.Unlock()
+	if !s.Known[key] {
+		return false
+	}
+	if s.knownHits == nil {
+		s.knownHits = map[string]*Violation{}
+	}
+	if s.knownHits[key] == nil {
+		s.knownHits[key] = &Violation{Class: class, Witness: witness, Msg: msg}
+		s.logLocked("KNOWN-FINDING " + class + " [" + witness + "]: " + msg)
+	}
+
+	return true
+}
+
+// KnownHits returns the known findings that occurred in this run.
+func (s *Sim) KnownHits() (hits []*Violation) {
+	s.mu.Lock()
+	defer s.mu.Unlock()
+	for _, k := range slices.Sorted(maps.Keys(s.knownHits)) {
+		hits = append(hits, s.knownHits[k])
+	}
+
+	return hits
 }
 
 // Failed returns the recorded violation, if any.
